@@ -65,6 +65,16 @@ CLAIMED = {
         "itself is judged by C04.",
         "5/C06",
     ),
+    "C07": (
+        "complete enumeration of header x limit x bad-row position x three observers (+ container fault family)",
+        "Header 0-3 x tables of 1-6 rows with one bad row at every position (also inside the header) x validation "
+        "limit None/0..r+1 are observed through cutplace.rows(on_error='yield'), cutplace.validate and "
+        "applications.main(--until N) for delimited and fixed data (ODS / XLSX sampled); a second family places a "
+        "container fault behind the validation window. The space is finite and enumerated completely.",
+        "Where the statement's two sentences about the limit disagree on container faults (header > 0 together "
+        "with a limit) only what both demand is judged; a fresh CID is used per run (carry-over is C08).",
+        "5/C07",
+    ),
     "C08": (
         "exhaustive operation sequences on one shared CID, differential against a freshly loaded CID",
         "All sequences of 1-4 operations over a 15-operation alphabet (reads clean / with duplicates / abandoned / "
@@ -131,6 +141,16 @@ CLAIMED = {
         "Rows are rectangular with a non-empty last cell (what all three storages can represent); cells whose "
         "reference verdict is format specific by documentation are neutral.",
         "5/C17",
+    ),
+    "C18": (
+        "complete enumeration of CID state x file lists x --until, oracle derived from the programmatic API",
+        "12 CID/data storage variants x all 259 lists of 0-3 data files over {accepted, rejected by a field, rejected "
+        "by IsUnique, sharing keys with a sibling, missing, directory} in every order x --until {absent,-1,0,k} plus "
+        "unusable argument lists are run in-process through applications.main; the expected exit code set comes "
+        "from cutplace.validate on a fresh CID per file; permutations must agree; a sample runs as subprocess.",
+        "Exit code {1,3} is accepted when a rejected and an unreadable file occur together. One genuine defect is a "
+        "recorded known finding (missing ODS file: exit 1 instead of 3).",
+        "5/C18",
     ),
     "C19": (
         "exhaustive boundary-pair sweep + hypothesis CIDs, generated DDL parsed back against a capacity table",
